@@ -441,9 +441,25 @@ func (a *AllExpression) SQL() string {
 	return fmt.Sprintf("%s %s ALL (%s)", operandSQL(a.Expr, precConcat), a.Operator, stmtSQL(a.Subquery))
 }
 
+// IsNiladicFunctionName reports whether name is one of the SQL-92 datetime value functions that
+// are written without parentheses: CURRENT_DATE, CURRENT_TIME, CURRENT_TIMESTAMP, LOCALTIME,
+// LOCALTIMESTAMP.
+func IsNiladicFunctionName(name string) bool {
+	switch strings.ToUpper(name) {
+	case "CURRENT_DATE", "CURRENT_TIME", "CURRENT_TIMESTAMP", "LOCALTIME", "LOCALTIMESTAMP":
+		return true
+	}
+	return false
+}
+
 func (f *FunctionCall) SQL() string {
 	if f == nil {
 		return ""
+	}
+	if len(f.Arguments) == 0 && !f.Distinct && len(f.OrderBy) == 0 && len(f.WithinGroup) == 0 &&
+		f.Filter == nil && f.Over == nil && IsNiladicFunctionName(f.Name) {
+		// written without parentheses (CURRENT_DATE() is not valid in every dialect)
+		return f.Name
 	}
 	sb := getBuilder()
 	defer putBuilder(sb)
